@@ -71,3 +71,46 @@ package server
 //@   ensures[C11:reply-answers-a-request] sent == old(sent) + 1 ==> (req != nil && req.OpCode == 1 && (mtof(req.Options) == 1 || mtof(req.Options) == 3))
 //@   ensures[C11:reply-mirrors-request] (sent == old(sent) + 1 && !sent_l2) ==> (pktof(sent_b) != nil && mirrors4(pktof(sent_b), req) && answers4(pktof(sent_b), req))
 //@   ensures[C11:reply-mirrors-request] (sent == old(sent) + 1 && sent_l2) ==> (sent_l2_resp != nil && mirrors4(sent_l2_resp, req) && answers4(sent_l2_resp, req))
+
+// ---------------------------------------------------------------------------
+// DHCPv6
+
+// reply kind for a request type (C12): ADVERTISE(2) for SOLICIT(1) without rapid commit, REPLY(7) otherwise
+//@ pure func supported6(m *dhcpv6.Message) bool = m.MessageType == 1 || replyable6(uint8(m.MessageType))
+//@ pure func answers6(r *dhcpv6.Message, m *dhcpv6.Message) bool = r.TransactionID == m.TransactionID && optn6(r)[1] == 1 && optlast6(r)[1] == getone6(m.Options, 1) && \
+//@     ((m.MessageType == 1 && !hasopt6(m.Options, 14)) ==> (r.MessageType == 2 && optn6(r)[14] == 0)) && \
+//@     ((m.MessageType == 1 && hasopt6(m.Options, 14)) ==> (r.MessageType == 7 && optn6(r)[14] == 1)) && \
+//@     (m.MessageType != 1 ==> r.MessageType == 7)
+
+//@ func (*listener6).HandleMsg6
+//@   requires l != nil && l.PacketConn != nil && handlers6ok(l) && peer != nil
+//@   requires cap(buf) >= 65536
+//@   requires l.Interface.Index != 0 || (oob != nil && oob.IfIndex != 0)
+//@   preserves *l, elems(l.handlers), *oob, *peer
+//@   modifies everything
+//@   loop 1: invariant d != nil && innerok6(d) && inner6(d) == msg && msg != nil && resp6ok(resp) && supported6(msg)
+//@   loop 1: invariant sent == old(sent)
+//@   loop 1: invariant l.handlers == old(l.handlers)
+//@   loop 1: invariant unchanged(old(l.handlers))
+//@   loop 1: invariant handlers6ok(l)
+//@   loop 1: invariant l.PacketConn != nil && peer != nil
+//@   loop 1: invariant l.Interface.Index != 0 || (oob != nil && oob.IfIndex != 0)
+//@   loop 1: invariant[C12] answers6(resp.(*dhcpv6.Message), msg)
+//@   loop 1: invariant[C13] 0 <= rangeindex + 1 && rangeindex + 1 <= len(l.handlers) && hlog_n == old(hlog_n) + rangeindex + 1
+//@   loop 1: invariant[C13] forall j in old(hlog_n)..hlog_n: (hlog_fn[j] == old(l.handlers[j - old(hlog_n)]) && hlog_req6[j] == d && !hlog_stop[j] && \
+//@       (j > old(hlog_n) ==> hlog_in6[j] == hlog_out6[j-1]))
+//@   loop 1: invariant[C13] rangeindex + 1 > 0 ==> resp == hlog_out6[hlog_n-1]
+//@   ensures[C01:at-most-one-reply] sent == old(sent) || sent == old(sent) + 1
+//@   ensures[C12:reply-answers-a-supported-request] sent == old(sent) + 1 ==> (d != nil && innerok6(d) && msg == inner6(d) && msg != nil && supported6(msg))
+//@   ensures[C12:direct-reply] (sent == old(sent) + 1 && !typeis(d, *dhcpv6.RelayMessage)) ==> (typeis(pkt6of(sent_b), *dhcpv6.Message) && answers6(pkt6of(sent_b).(*dhcpv6.Message), msg))
+//@   ensures[C12:relayed-reply] (sent == old(sent) + 1 && typeis(d, *dhcpv6.RelayMessage)) ==> (typeis(pkt6of(sent_b), *dhcpv6.RelayMessage) && rr_src(pkt6of(sent_b)) == d.(*dhcpv6.RelayMessage) && \
+//@       rr_inner(pkt6of(sent_b)) != nil && answers6(rr_inner(pkt6of(sent_b)), msg))
+//@   ensures[C12:back-to-source] sent == old(sent) + 1 ==> (typeis(sent_dst, *net.UDPAddr) && sent_dst.(*net.UDPAddr) == peer)
+//@   ensures[C12:interface-pinning] sent == old(sent) + 1 ==> (((sent_cm6 != nil) <==> islluh(heap8(), peer.IP)) && \
+//@       (sent_cm6 != nil ==> sent_cm6.IfIndex == ite(l.Interface.Index != 0, l.Interface.Index, oob.IfIndex)))
+//@   ensures[C13:count] hlog_n - old(hlog_n) >= 0 && hlog_n - old(hlog_n) <= len(l.handlers)
+//@   ensures[C13:invoked-in-order] forall j in old(hlog_n)..hlog_n: hlog_fn[j] == old(l.handlers[j - old(hlog_n)])
+//@   ensures[C13:same-request] forall j in old(hlog_n)..hlog_n: hlog_req6[j] == d
+//@   ensures[C13:response-threaded] forall j in old(hlog_n)..hlog_n: (j > old(hlog_n) ==> (hlog_in6[j] == hlog_out6[j-1] && !hlog_stop[j-1]))
+//@   ensures[C13:until-stop] (hlog_n > old(hlog_n) && hlog_n - old(hlog_n) < len(l.handlers)) ==> hlog_stop[hlog_n-1]
+//@   ensures[C13:nil-means-nothing-sent] (hlog_n > old(hlog_n) && hlog_out6[hlog_n-1] == nil) ==> sent == old(sent)
